@@ -24,8 +24,9 @@ Variable adm_t : string -> value -> Prop.
 Hypothesis sub_rt : forall t v b rest, adm_t t v -> enc_t R t v = Ok b ->
   dec_t R t (b ++ rest) = Ok v /\ size_t R t v = Ok (Z.of_nat (length b)) /\ (0 < length b)%nat.
 
-(* the struct being (de)serialised has no @size window of its own in this fragment *)
-Hypothesis no_size_attr : struct_size_attr s = None.
+(* a member that is not the @size member of the struct whose method runs *)
+Definition not_size_member (f : field) : Prop :=
+  match struct_size_attr s with Some n => String.eqb n (f_name f) | None => false end = false.
 
 Notation ser_field := (serialize_field OP tm R s allfs).
 Notation ser_fields := (serialize_fields_go OP tm R s allfs).
@@ -129,19 +130,20 @@ Proof. unfold classify. destruct (f_cond f); [discriminate|reflexivity]. Qed.
 
 (* ---- one member: what serialize_field wrote, load_field reads back, leaving exactly the rest ---- *)
 Lemma member_step (seen : list field) e self total f bf rest :
+  not_size_member f ->
   env_ok seen e self -> member_typed self f ->
   (forall a n, classify f = Some (MkArray a n) -> size_member_seen seen f n) ->
   (forall n, classify f = Some (MkBytes n) -> size_member_seen seen f n) ->
   ser_field total self false f = Ok bf ->
   exists v, load e f (bf ++ rest) = Ok (v, rest) /\ Some v = env_entry self f.
 Proof.
-  intros Henv Hty Harr Hbytes Hser. unfold member_typed, env_entry in *.
+  intros no_size_attr Henv Hty Harr Hbytes Hser. unfold member_typed, env_entry in *.
   destruct (classify f) as [k|] eqn:Hk; [|contradiction].
   pose proof (classify_cond f k Hk) as Hcond.
   unfold classify in Hk. rewrite Hcond in Hk.
   destruct (is_sizeof f) eqn:Hsz; [discriminate|]. destruct (is_computed f) eqn:Hcomp; [discriminate|].
   unfold serialize_field in Hser. cbn [andb] in Hser. rewrite (cond_self_none tm R allfs self f Hcond) in Hser. cbn [bind negb] in Hser.
-  unfold load_field. rewrite no_size_attr.
+  unfold load_field. unfold not_size_member in no_size_attr. rewrite no_size_attr.
   destruct (f_type f) as [i|t|a] eqn:Hft.
   - (* integers *)
     destruct (it_size i <? 0) eqn:Hw0; [discriminate|].
@@ -288,28 +290,31 @@ Lemma member_typed_cond self f : member_typed self f -> f_cond f = None.
 Proof. unfold member_typed. destruct (classify f) eqn:Hk; [|contradiction]. intros _. eapply classify_cond; eassumption. Qed.
 
 Lemma loop_rt : forall fs seen e self total b rest processed,
+  (forall f, In f fs -> not_size_member f) ->
   ordered seen fs -> NoDup (map f_name (seen ++ fs)) ->
   env_ok seen e self -> (forall f, In f fs -> member_typed self f) ->
   ser_fields total self false fs = Ok b ->
-  exists e', des_loop fs processed [] [] e (b ++ rest) = Ok (e', rest) /\ env_ok (seen ++ fs) e' self.
+  exists e', des_loop fs processed [] [] e (b ++ rest) = Ok (e', rest) /\ env_ok (seen ++ fs) e' self /\
+             (forall n, ~ In n (map f_name fs) -> eget e' n = eget e n).
 Proof.
-  induction fs as [|f r IH]; intros seen e self total b rest processed Hord Hnd Henv Hty Hser.
-  - cbn in Hser. injection Hser as <-. exists e. rewrite app_nil_r. split; [reflexivity | exact Henv].
+  induction fs as [|f r IH]; intros seen e self total b rest processed Hnsz Hord Hnd Henv Hty Hser.
+  - cbn in Hser. injection Hser as <-. exists e. rewrite app_nil_r. split; [reflexivity | split; [exact Henv | reflexivity]].
   - rewrite ser_fields_cons in Hser.
     destruct (ser_field total self false f) as [bf| |] eqn:Hf; cbn [bind] in Hser; try discriminate.
     destruct (ser_fields total self false r) as [br| |] eqn:Hr; cbn [bind] in Hser; try discriminate.
     injection Hser as <-. inversion Hord as [|? ? ? Ha Hb Hrest]; subst.
     pose proof (Hty f (or_introl eq_refl)) as Htf. pose proof (member_typed_cond self f Htf) as Hcond.
-    destruct (member_step seen e self total f bf (br ++ rest) Henv Htf Ha Hb Hf) as (v & Hload & Hv).
+    destruct (member_step seen e self total f bf (br ++ rest) (Hnsz f (or_introl eq_refl)) Henv Htf Ha Hb Hf) as (v & Hload & Hv).
     assert (Henv' : env_ok (seen ++ [f]) ((f_name f, v) :: e) self).
     { intros g Hg. apply in_app_or in Hg as [Hg|[<-|[]]].
       - rewrite eget_cons_neq; [now apply Henv|].
         rewrite map_app in Hnd. cbn [map] in Hnd. apply NoDup_remove_2 in Hnd. intros Heq. apply Hnd.
         apply in_or_app. left. rewrite Heq. now apply in_map.
       - rewrite eget_cons_eq. exact Hv. }
-    destruct (IH (seen ++ [f]) ((f_name f, v) :: e) self total br rest (f_name f :: processed) Hrest
-               ltac:(rewrite <- app_assoc; exact Hnd) Henv' (fun g Hg => Hty g (or_intror Hg)) Hr) as (e' & Hloop & Henv'').
-    exists e'. split; [|rewrite <- app_assoc in Henv''; exact Henv''].
+    destruct (IH (seen ++ [f]) ((f_name f, v) :: e) self total br rest (f_name f :: processed) (fun g Hg => Hnsz g (or_intror Hg)) Hrest
+               ltac:(rewrite <- app_assoc; exact Hnd) Henv' (fun g Hg => Hty g (or_intror Hg)) Hr) as (e' & Hloop & Henv'' & Hkeep).
+    exists e'. split; [|split; [rewrite <- app_assoc in Henv''; exact Henv''|]].
+    2:{ intros n Hn. cbn [map] in Hn. rewrite Hkeep by (intros Hx; apply Hn; now right). apply eget_cons_neq. intros Heq. apply Hn. now left. }
     cbn [deserialize_loop]. rewrite Hcond. unfold deserialize_field. rewrite (cond_local_none e f Hcond). cbn [bind].
     rewrite <- app_assoc, Hload. cbn [bind fst snd find drain_queue]. exact Hloop.
 Qed.
@@ -331,10 +336,12 @@ Proof.
 Qed.
 
 (* the first member is only special for the @size member, which this fragment does not have *)
-Lemma ser_fields_first total self fs : ser_fields total self true fs = ser_fields total self false fs.
+Lemma ser_fields_first total self fs : (forall f, In f fs -> not_size_member f) -> ser_fields total self true fs = ser_fields total self false fs.
 Proof.
-  destruct fs as [|f r]; [reflexivity|]. rewrite !ser_fields_cons. f_equal.
-  unfold serialize_field, is_size_first. now rewrite no_size_attr.
+  intros Hn. destruct fs as [|f r]; [reflexivity|]. rewrite !ser_fields_cons. f_equal.
+  specialize (Hn f (or_introl eq_refl)). unfold not_size_member in Hn. unfold serialize_field, is_size_first.
+  destruct (struct_size_attr s) as [n|]; [|reflexivity].
+  rewrite String.eqb_refl. cbn [andb]. rewrite String.eqb_sym, Hn. reflexivity.
 Qed.
 
 End StructRT.
